@@ -33,6 +33,14 @@ THEOREMS = [
     "plain_agrees",
     "detach_by_equality_refuted",
     "unset_by_equality_refuted",
+    "internal_programs_refine",
+    "import_apply_frame",
+    "import_schema_frame_own",
+    "import_schema_frame_new",
+    "replace_references_frame",
+    "replace_references_shares",
+    "replace_references_is_move_but_one_list",
+    "document_lookups_exact",
 ]
 
 
@@ -1200,6 +1208,317 @@ def check_internal_users(ck):
 
 # ---------------------------------------------------------------------------
 
+# ---------------------------------------------------------------------------
+# the internal users of tree surgery (coq/C19/Users.v), driven like the operations
+# ---------------------------------------------------------------------------
+
+PRE_U = "From SV Require Import Lib.Base C19.Model C19.Users."
+XSD_URI = "http://www.w3.org/2001/XMLSchema"
+WSDL_URI = "http://schemas.xmlsoap.org/wsdl/"
+
+
+class SkipCase(Exception):
+    pass
+
+
+def apply_call(reg, call):
+    """Run one internal-user call on the real objects -> (canonical result, Coq term of the call)"""
+    o = reg.objs
+    k = call[0]
+
+    def adopt(parent):
+        # a node the callee created itself (always inserted in front)
+        if parent.children and reg.idof(parent.children[0]) == 999999:
+            reg.add(parent.children[0])          # (its children, if any, are nodes already held)
+
+    if k == "importApply":
+        from suds.xsd.doctor import Import
+        _, root, ns, loc = call
+        term = "(UImportApply %d%%N %s %s)" % (root, cstr(ns), c_ostr(loc))
+        try:
+            Import(ns, loc).apply(o[root])
+            adopt(o[root])
+            return ("RNone",), term
+        except Exception:     # noqa
+            return ("RErr",), term
+    if k == "importSchema":
+        import suds.wsdl
+        _, defroot, types_spec, schema = call
+        # types_spec: list of (types root id, is the importer's own); the callee must take the LAST own one
+        own = [t for t, mine in types_spec if mine]
+        term = "(UImportSchema %d%%N %s %d%%N)" % (defroot, c_oid(own[-1] if own else None), schema)
+        try:
+            class Defs(object):
+                pass
+            d, other, dd = Defs(), Defs(), Defs()
+            d.root, d.types = o[defroot], []
+            for t, mine in types_spec:
+                d.types.append(suds.wsdl.Types(o[t], d if mine else other))
+            dd.root = o[schema]
+            imp = object.__new__(suds.wsdl.Import)
+            suds.wsdl.Import.import_schema(imp, d, dd)
+            adopt(o[defroot])
+            return ("RNone",), term
+        except Exception:     # noqa
+            return ("RErr",), term
+    if k == "replaceRefs":
+        from suds.bindings.multiref import MultiRef
+        _, body, node = call
+        try:
+            mr = MultiRef()
+            mr.build_catalog(o[body])
+            href = o[node].getAttribute("href")
+            ref = mr.catalog.get(href.getValue()) if href is not None else None
+            refid = reg.idof(ref)
+        except Exception:     # noqa
+            return ("RErr",), "(UReplaceRefs %d%%N None)" % node
+        if refid is not None and refid != 999999 and reaches(reg, refid, node):
+            # an href to the node itself or to one of its ancestors would tie a loop
+            # (plain() and MultiRef.update would not terminate): not driven
+            raise SkipCase()
+        term = "(UReplaceRefs %d%%N %s)" % (node, c_oid(refid))
+        try:
+            mr.replace_references(o[node])
+            return ("RNone",), term
+        except Exception:     # noqa
+            return ("RErr",), term
+    from suds.sax.document import Document
+    _, r, arg = call
+    doc = Document(o[r]) if r is not None else Document()
+    ctor = {"docGetChild": "UDocGetChild", "docChildAt": "UDocChildAt", "docChildrenAt": "UDocChildrenAt"}[k]
+    term = "(%s %s %s)" % (ctor, c_oid(r), cstr(arg))
+    try:
+        if doc.root() is not (o[r] if r is not None else None):
+            return ("RErr",), term
+        if k == "docGetChild":
+            return _nodes(reg, doc.getChild(arg)), term
+        if k == "docChildAt":
+            return _nodes(reg, doc.childAtPath(arg)), term
+        return _nodes(reg, doc.childrenAtPath(arg)), term
+    except Exception:     # noqa
+        return ("RErr",), term
+
+
+def run_user_case(setup, call):
+    """-> (Coq term of the case, observation) or None when the implementation got stuck"""
+    reg = Reg()
+    try:
+        with deadline(10.0):
+            for op in setup:
+                apply_op(reg, op)
+            base = (dump(reg), plains(reg))
+            res, term = apply_call(reg, call)
+            ob = (res, dump(reg), plains(reg))
+    except Stuck:
+        note_stuck(setup, [])
+        return None
+    except SkipCase:
+        return None
+    return term, ob, base
+
+
+def c_ucase(quirk, setup, base, term, ob):
+    return "(mkU %s %s %s %s %s)" % (quirk, c_setup(setup), c_base(base), term, c_obs(deltas([ob], base)[0]))
+
+
+class Builder(object):
+    """setup operations with running ids"""
+
+    def __init__(self):
+        self.ops = []
+        self.n = 0
+
+    def new(self, qname, ns=None, parent=None, attrs=(), text=None, binds=()):
+        i = self.n
+        self.n += 1
+        self.ops.append(("new", qname, ns))
+        for p, u in binds:
+            self.ops.append(("addprefix", i, p, u))
+        for a, v in attrs:
+            self.ops.append(("addattr", i, a, v))
+        if text is not None:
+            self.ops.append(("settext", i, text))
+        if parent is not None:
+            self.ops.append(("append", parent, [i], False))
+        return i
+
+
+def gen_import_apply(rng):
+    b = Builder()
+    tns = rng.choice([None, "t0", "n1"])
+    root = b.new("schema", ("p", "xs", XSD_URI), attrs=[("targetNamespace", tns)] if tns else [])
+    for _ in range(rng.choice([0, 1, 2, 3, 4])):
+        kind = rng.random()
+        if kind < 0.5:
+            attrs = [("namespace", rng.choice(["n1", "n2", "n3"]))] if rng.random() < 0.85 else []
+            if rng.random() < 0.3:
+                attrs.append(("schemaLocation", "l0"))
+            b.new(rng.choice(["import", "import", "q:import"]), rng.choice([("p", "xs", XSD_URI), None]), root, attrs)
+        elif kind < 0.7:
+            b.new("include", ("p", "xs", XSD_URI), root, [("namespace", rng.choice(["n1", "n2"]))])
+        else:
+            e = b.new("element", ("p", "xs", XSD_URI), root, [("name", rng.choice(["a", "a", "b"]))])
+            if rng.random() < 0.4:
+                b.new("import", None, e, [("namespace", rng.choice(["n1", "n2"]))])     # not a direct child
+    return b.ops, ("importApply", root, rng.choice(["n1", "n2", "n3", "n4", "t0"]), rng.choice([None, "loc1"]))
+
+
+def gen_import_schema(rng):
+    b = Builder()
+    defroot = b.new("definitions", ("d", WSDL_URI), binds=[("xs", XSD_URI)])
+    types_spec = []
+    for _ in range(rng.choice([0, 1, 2, 3])):
+        kind = rng.random()
+        if kind < 0.55:
+            t = b.new("types", ("d", WSDL_URI), defroot if rng.random() < 0.8 else None)
+            for _ in range(rng.choice([0, 1, 2])):
+                b.new("schema", ("p", "xs", XSD_URI), t, [("targetNamespace", rng.choice(["n1", "n2"]))])
+            types_spec.append((t, rng.random() < 0.6))
+        else:
+            b.new(rng.choice(["message", "portType", "import"]), None, defroot, [("name", rng.choice(["a", "b"]))])
+    schema = b.new("schema", ("p", "xs", XSD_URI), None, [("targetNamespace", "n9")])
+    for _ in range(rng.choice([0, 1, 2])):
+        b.new("element", ("p", "xs", XSD_URI), schema, [("name", rng.choice(["a", "a", "b"]))])
+    return b.ops, ("importSchema", defroot, types_spec, schema)
+
+
+def gen_replace_refs(rng):
+    b = Builder()
+    body = b.new("Body", None, binds=[("e", "enc")] if rng.random() < 0.7 else [])
+    ids = ["i1", "i2", "i3"]
+    referrers, multirefs = [], []
+
+    def referrer(parent):
+        attrs = []
+        if rng.random() < 0.3:
+            attrs.append((rng.choice(["k", "p:type"]), "v"))
+        if rng.random() < 0.88:
+            attrs.append((rng.choice(["href", "href", "href", "x:href"]), "#" + rng.choice(ids + ["zz"])))
+        if rng.random() < 0.3:
+            attrs.append((rng.choice(["m", "href"]), "#i2"))
+        n = b.new(rng.choice(["a", "a", "b"]), rng.choice([None, None, ("d", "u1")]), parent, attrs,
+                  rng.choice([None, None, "old"]))
+        if rng.random() < 0.3:
+            b.new("c", None, n)                         # the referring node has children of its own
+        referrers.append(n)
+        return n
+
+    def multiref(i):
+        attrs = [("id", i)]
+        if rng.random() < 0.5:
+            attrs.insert(rng.choice([0, 1]), (rng.choice(["e:root", "k", "q:type"]), rng.choice(["0", "v"])))
+        if rng.random() < 0.2:
+            attrs.append(("id", "dup"))
+        m = b.new(rng.choice(["m", "multiRef", "a"]), rng.choice([None, ("d", "u2")]), body, attrs,
+                  rng.choice([None, "t1", ""]),
+                  [("q", rng.choice(["u2", "u3"]))] if rng.random() < 0.5 else [])
+        for _ in range(rng.choice([0, 1, 2, 3])):
+            c = b.new(rng.choice(["v", "v", "w", "q:v"]), None, m, text=rng.choice([None, "x1", "x2"]))
+            if rng.random() < 0.25:
+                referrer(c)                            # an href inside ANOTHER multiref's content
+        multirefs.append(m)
+
+    order = ["r", "r", "m", "m", "r", "m"]
+    rng.shuffle(order)
+    k = 0
+    for what in order[:rng.choice([3, 4, 5, 6])]:
+        if what == "r":
+            n = referrer(body)
+            if rng.random() < 0.3:
+                referrer(n)
+        elif k < len(ids):
+            multiref(ids[k])
+            k += 1
+    if not referrers:
+        referrer(body)
+    return b.ops, ("replaceRefs", body, rng.choice(referrers))
+
+
+DOC_PATHS = ["r", "/r", "p:r", "/p:r", "q:r", "a", "/a", "r/a", "/r/a", "/r/a/b", "r/a/p:b", "/r/p:a/p:b", "r/", "/r/",
+             "r//a", "/", "", "x", "/x/a", "r/a/q:b", "/r/a/b/c", "a/a", "/a/b", "zz:r/a", "r/b"]
+
+
+def gen_document(rng):
+    if rng.random() < 0.5:
+        setup, _ = gen_nspath_history(rng, 0)
+    else:
+        setup = gen_tree(rng)
+    if rng.random() < 0.06:
+        r = None
+    else:
+        r = 0 if rng.random() < 0.8 else 1
+    kind = rng.choice(["docChildAt", "docChildAt", "docChildrenAt", "docChildrenAt", "docGetChild"])
+    arg = rng.choice(DOC_PATHS) if kind != "docGetChild" else rng.choice(["r", "p:r", "q:r", "a", "p:a", "zz:r", ""])
+    return setup, (kind, r, arg)
+
+
+USER_LABEL = {"importApply": "xsd.doctor.Import.apply", "importSchema": "wsdl.Import.import_schema",
+              "replaceRefs": "MultiRef.replace_references", "docGetChild": "Document.getChild",
+              "docChildAt": "Document.childAtPath", "docChildrenAt": "Document.childrenAtPath"}
+USER_KEY = {"importApply": "C19:doctor-import-disturbs-siblings", "importSchema": "C19:import_schema-departs-from-reference",
+            "replaceRefs": "C19:replace_references-departs-from-frame", "docGetChild": "C19:Document-lookup-departs-from-root",
+            "docChildAt": "C19:Document-lookup-departs-from-root", "docChildrenAt": "C19:Document-lookup-departs-from-root"}
+
+
+def run_users(ck, quirk):
+    """generate, run and evaluate the internal-user cases -> list of disagreements with the model only"""
+    rng = ck.rng
+    f = 8 if ck.tier == "thorough" else 1
+    plan = [(gen_import_apply, 120 * f), (gen_import_schema, 100 * f), (gen_replace_refs, 180 * f),
+            (gen_document, 220 * f)]
+    cases, terms = [], []
+    for gen, cnt in plan:
+        for _ in range(cnt):
+            setup, call = gen(rng)
+            try:
+                r = run_user_case(setup, call)
+            except GiveUp as e:
+                ck.failing_input("C19:call-does-not-return",
+                                 "calls into suds do not return (CPU-time bound hit three times); last: %r" % (call,),
+                                 dict(describe(setup, []), kind="user-call", call=list(call)))
+                r = None
+            if r is None:
+                continue
+            term, ob, base = r
+            cases.append((setup, call, ob, base))
+            terms.append(c_ucase(quirk, setup, base, term, ob))
+            ck.seen(("user", tuple(map(repr, setup)), repr(call)), nontrivial=True)
+            ck.count("user:" + USER_LABEL[call[0]])
+            if ob[0] == ("RErr",):
+                ck.count("user-results-that-are-exceptions")
+    preds = ["users_agrees", "users_spec_ok", "users_inside"]
+    res = ck.run_cases("users", PRE_U, "ucase", terms, preds, shard=60)
+    bad_model, bad_spec = set(res[preds[0]]), set(res[preds[1]])
+    ck.extra["internal_user_calls"] = len(terms)
+    ck.extra["internal_user_calls_inside_the_reference_domain"] = len(terms) - len(res[preds[2]])
+    ck.extra["internal_user_calls_failing_the_specification"] = len(bad_spec)
+
+    def size(i):
+        return len(cases[i][0])
+    seen_keys = set()
+    for i in sorted(bad_spec, key=size):
+        setup, call, ob, base = cases[i]
+        key = USER_KEY[call[0]]
+        if key in seen_keys:
+            continue
+        seen_keys.add(key)
+        ck.failing_input(key, "%s%r on the tree built by the setup does not leave the tree its specification "
+                         "describes (what is written / what stays untouched): result %r, plain %r"
+                         % (USER_LABEL[call[0]], tuple(call[1:]), ob[0], ob[2][:2]),
+                         dict(describe(setup, []), kind="user-call", call=list(call),
+                              observed={"result": ob[0], "plain": ob[2]}))
+    out = []
+    for i in sorted(bad_model - bad_spec, key=size)[:1]:
+        setup, call, ob, base = cases[i]
+        out.append(("model/implementation correspondence of C19 no longer holds for %s%r"
+                    % (USER_LABEL[call[0]], tuple(call[1:])),
+                    dict(describe(setup, []), kind="user-call", call=list(call),
+                         model_disagreements=len(bad_model - bad_spec),
+                         observed={"result": ob[0], "plain": ob[2]})))
+    return out
+
+
+
 def describe(setup, steps, upto=None):
     return {"setup": [list(o) for o in setup],
             "steps": [list(o) for o in (steps if upto is None else steps[:upto + 1])]}
@@ -1244,8 +1563,15 @@ def run(ck):
         "intermediate path steps take the FIRST matching child (documented behaviour of childAtPath), a name "
         "without prefix matches in any namespace (the namespace is an optional filter)",
         "Attribute objects are modelled as positions in the element's attribute list",
-        "Document, Element.__setitem__, promotePrefixes/refitPrefixes/normalizePrefixes, trim, setnil are not "
-        "modelled (probes of Document and __setitem__ are recorded in coverage.probes)",
+        "internal users (coq/C19/Users.v): xsd.doctor.Import.apply (default TnsFilter), wsdl.Import.import_schema "
+        "(which Types object is the importer's own is decided by the harness from the objects it builds; the model "
+        "gets its root), MultiRef.replace_references (the referenced node is the one the real catalog yields; "
+        "attribute OBJECTS aliased into the referring node are modelled as copies; an href to the node itself or to "
+        "one of its ancestors, which ties a loop, is not driven) and Document getChild/childAtPath/childrenAtPath "
+        "are programs over the modelled operations; MultiRef.process/update as a whole, Document.getChildren and "
+        "Document.str/plain are not modelled",
+        "Element.__setitem__, promotePrefixes/refitPrefixes/normalizePrefixes, trim, setnil are not modelled "
+        "(a probe of __setitem__ is recorded in coverage.probes)",
     ]
     proof_ok = ck.prove(THEOREMS)
 
@@ -1379,8 +1705,18 @@ def run(ck):
                "intermediate nodes named a, whose children share a local name across unqualified / default / "
                "prefixed namespaces in random order, x 12 steps of childAtPath / childrenAtPath / getChild with "
                "1-3 step prefixed paths from several start nodes, interleaved with re-bindings and detaches) "
+               "(3) internal users, one call each after a generated setup, compared with the model's program and "
+               "with the call's frame / reference: Import.apply on schemas with 0-4 children among xs:import / "
+               "import / q:import / include / element (imports with and without namespace, nested imports), "
+               "namespace equal to an existing import, to the targetNamespace, or new, with/without location; "
+               "import_schema on definitions with 0-3 types elements, own or foreign, attached or not; "
+               "replace_references on bodies of referrers (href, x:href, second href, no href, unresolved, own "
+               "children, nested in other multirefs) and multiRef nodes (id first or second, duplicate id, text / "
+               "empty text / none, own prefix declarations, 0-3 children with repeated names); Document lookups "
+               "with 25 paths on the trees of (2).  "
                "over all 24 operations (half of the histories contain, near the end, one edit deliberately outside the reference's domain).  distinct = distinct "
                "(setup, history); non-trivial = the history contains at least one edit")
+    user_model_disagreements = run_users(ck, quirk)
     ck.exhaustive = False
     if not proof_ok:
         ck.unproved("proof obligation of C19 no longer checks: " + ck.proof_log[-1500:],
@@ -1397,6 +1733,9 @@ def run(ck):
                     dict(describe(setup, done, upto), kind="history", group=grp,
                          model_disagreements=len(only_model),
                          observed={"result": obs[upto][0], "plain": obs[upto][2]}))
+    for what, payload in user_model_disagreements:
+        ck.unproved(what + " (the call meets its specification, but the implementation is no longer the program "
+                    "the theorems are about)", payload)
 
 
 def replay(ck, payload):
@@ -1411,6 +1750,23 @@ def replay(ck, payload):
         return 0
     if kind == "doctor":
         print("xsd.doctor.Import.apply check failing for n =", check_internal_users(ck))
+        return 0
+    if kind == "user-call":
+        setup = [tuple(o) for o in payload["setup"]]
+        call = tuple(payload["call"])
+        try:
+            r = run_user_case(setup, call)
+        except GiveUp:
+            r = None
+        if r is None:
+            print("the call does not return")
+            return 0
+        term, ob, base = r
+        print(USER_LABEL[call[0]], call[1:], "->", ob[0])
+        for i, t in base[1]:
+            print("     before: plain(%d) = %s" % (i, t))
+        for i, t in ob[2]:
+            print("     after:  plain(%d) = %s" % (i, t))
         return 0
     if kind == "history":
         setup = [tuple(o) for o in payload["setup"]]
